@@ -8,7 +8,7 @@ PROP = "C15"
 MODEL_VO = ["theories/Model/PdoLink.vo"]
 COQ_IMPORTS = "From CV Require Import Model.Codec Model.Pdo Model.PdoLink."
 COQ_RUN = "run_link"
-ANCHORS = [("canopen.pdo.base", "PdoMap.__init__"), ("canopen.pdo.base", "PdoMap.on_message"), ("canopen.pdo.base", "PdoMap.transmit"), ("canopen.pdo.base", "PdoMap.remote_request"), ("canopen.pdo.base", "PdoMap.subscribe"), ("canopen.pdo.base", "PdoMap.add_callback"), ("canopen.pdo.base", "PdoMap.wait_for_reception"), ("canopen.network", "Network.subscribe"), ("canopen.network", "Network.notify")]
+ANCHORS = [("canopen.pdo.base", "PdoBase.__getitem__"), ("canopen.pdo.base", "PdoMap.__getitem__"), ("canopen.pdo.base", "PdoMap.clear"), ("canopen.pdo.base", "PdoMap.add_variable"), ("canopen.pdo.base", "PdoMap.start"), ("canopen.pdo.base", "PdoMap.stop"), ("canopen.pdo.base", "PdoMap.__init__"), ("canopen.pdo.base", "PdoMap.on_message"), ("canopen.pdo.base", "PdoMap.transmit"), ("canopen.pdo.base", "PdoMap.remote_request"), ("canopen.pdo.base", "PdoMap.subscribe"), ("canopen.pdo.base", "PdoMap.add_callback"), ("canopen.pdo.base", "PdoMap.wait_for_reception"), ("canopen.network", "Network.subscribe"), ("canopen.network", "Network.notify")]
 COQ_CASE_TYPE = "link_case"
 RULE = ("case = up to 4 producer maps (LocalNode TPDOs) and 4 consumer maps (RemoteNode TPDOs) on one synchronous bus, each with "
         "a COB-ID (distinct or colliding), enabled / RTR flags and a bit layout as in C05, then a sequence of write / transmit / "
@@ -53,12 +53,15 @@ def make_world(maps):
         for sub in (0, 1):
             v = odm.ODVariable(f"m{sub}", 0x1A00 + n, sub); v.data_type = odm.UNSIGNED32; arr.add_member(v)
         od.add_object(arr)
-    types_used = sorted({dt for m in maps for dt, _ in m["layout"]})
-    for dt in types_used:
-        for i in range(8):
-            v = odm.ODVariable(f"t{dt}_{i}", 0x2000 + dt * 16 + i, 0)
-            v.data_type = dt
-            od.add_object(v)
+    # every map pair j (producer j, consumer j) has its own objects, so that lookups through the PDO collection
+    # (node.tpdo[name], node.pdo[index]) are unambiguous
+    from props.c04 import INT_TYPES as _IT
+    for j in range(NPROD):
+        for dt in list(_IT) + [BOOLEAN, REAL32, REAL64]:
+            for i in range(8):
+                v = odm.ODVariable(var_name(j, dt, i), var_index(j, dt, i), 0)
+                v.data_type = dt
+                od.add_object(v)
     net = Net()
     local = canopen.LocalNode(5, od)
     remote = canopen.RemoteNode(5, od)
@@ -69,10 +72,32 @@ def make_world(maps):
         pm = (local.tpdo if k < NPROD else remote.tpdo)[(k % NPROD) + 1]
         pm.clear()
         for i, (dt, ln) in enumerate(m["layout"]):
-            pm.add_variable(0x2000 + dt * 16 + i, 0, ln)
+            pm.add_variable(var_index(k % NPROD, dt, i), 0, ln)
         pm.cob_id, pm.enabled, pm.rtr_allowed = m["cob"], m["en"], m["rtr"]
         objs.append(pm)
+    net.colls = (local.tpdo, remote.tpdo)
     return net, objs
+
+
+def var_index(j, dt, i):
+    return 0x2000 + j * 0x400 + dt * 8 + i
+
+
+def var_name(j, dt, i):
+    return f"m{j}_t{dt}_{i}"
+
+
+def get_var(net, objs, layouts, k, var, via):
+    """the PdoVariable for entry `var` of map k, reached through the map or through the PDO collection"""
+    dt = layouts[k][var][0]
+    if via == "map":
+        return objs[k].map[var]
+    coll = net.colls[0] if k < NPROD else net.colls[1]
+    if via == "name":
+        return coll[var_name(k % NPROD, dt, var)]
+    if via == "mapname":
+        return objs[k][var_name(k % NPROD, dt, var)]
+    return coll[var_index(k % NPROD, dt, var)]
 
 
 def read_var(var, dt):
@@ -88,19 +113,37 @@ def read_var(var, dt):
 def impl(c):
     def run():
         net, objs = make_world(c["maps"])
+        layouts = [list(m["layout"]) for m in c["maps"]]
+        vias = c.get("vias") or ["map"]
+        nv = [0]
+        def via():
+            nv[0] += 1
+            return vias[nv[0] % len(vias)]
         cblog = []
         out = []
         for op in c["ops"]:
             t = op[0]
             if t in ("w", "wf"):
-                pm = objs[op[1]]; dt = c["maps"][op[1]]["layout"][op[2]][0]
+                dt = layouts[op[1]][op[2]][0]
                 val = bits_to_float(op[3], *REALS[dt]) if t == "wf" else op[3]
+                v_ = via()
                 def wr():
-                    pm.map[op[2]].raw = val
+                    get_var(net, objs, layouts, op[1], op[2], v_).raw = val
                 out.append(guarded(wr))
             elif t == "r":
-                pm = objs[op[1]]; dt = c["maps"][op[1]]["layout"][op[2]][0]
-                out.append(guarded(lambda: read_var(pm.map[op[2]], dt)))
+                dt = layouts[op[1]][op[2]][0]
+                v_ = via()
+                out.append(guarded(lambda: read_var(get_var(net, objs, layouts, op[1], op[2], v_), dt)))
+            elif t == "remap":
+                pm = objs[op[1]]
+                def rm():
+                    pm.clear()
+                    for i, (dt, ln) in enumerate(op[2]):
+                        pm.add_variable(var_index(op[1] % NPROD, dt, i), 0, ln)
+                out.append(guarded(rm))
+                layouts[op[1]] = list(op[2])
+            elif t == "start0":
+                out.append(guarded(objs[op[1]].start))
             elif t == "tx":
                 net.now = op[2]
                 out.append(guarded(objs[op[1]].transmit))
@@ -147,10 +190,11 @@ def impl(c):
 # ------------------------------------------------------------------ reference (the property, executable)
 class RefMap:
     def __init__(self, m):
-        self.cob, self.en, self.rtr, self.layout = m["cob"], m["en"], m["rtr"], m["layout"]
+        self.cob, self.en, self.rtr, self.layout = m["cob"], m["en"], m["rtr"], list(m["layout"])
         total = sum(l for _, l in self.layout)
         self.data = bytes((total + 7) // 8)
         self.ts = None; self.period = None; self.received = False; self.task = False; self.cbs = []
+        self.unknown = False
     def field(self, var):
         off = sum(l for _, l in self.layout[:var]); dt, ln = self.layout[var]
         return off, dt, ln
@@ -170,7 +214,7 @@ def oracle(c, o):
             if sc == cob and m.cob == cob and not m.task:
                 if m.ts is not None:
                     m.period = ts - m.ts
-                m.ts, m.received, m.data = ts, True, bytes(data)
+                m.ts, m.received, m.data, m.unknown = ts, True, bytes(data), False
                 for cb in m.cbs:
                     exp_cb.append([k, cb])
 
@@ -182,7 +226,8 @@ def oracle(c, o):
             v = op[3]
             F = int.from_bytes(m.data, "little")
             if off + ln > 8 * len(m.data):
-                continue    # frame replaced by a shorter foreign frame: outside the property
+                m.unknown = True   # frame replaced by a shorter foreign frame: outside the property,
+                continue           # the map's content is not judged until the next reception
             if t == "w" and dt in INT_TYPES:
                 lo, hi = rng_of(*INT_TYPES[dt])
                 if not lo <= v <= hi:
@@ -196,7 +241,7 @@ def oracle(c, o):
             m.data = F.to_bytes(len(m.data), "little")
         elif t == "r":
             m = maps[op[1]]; off, dt, ln = m.field(op[2])
-            if off + ln > 8 * len(m.data):
+            if off + ln > 8 * len(m.data) or m.unknown:
                 continue
             f = (int.from_bytes(m.data, "little") >> off) & ((1 << ln) - 1)
             if dt in INT_TYPES:
@@ -231,23 +276,40 @@ def oracle(c, o):
         elif t == "task":
             maps[op[1]].task = bool(op[2])
             if op[2]: maps[op[1]].period = 1
+        elif t == "remap":
+            m = maps[op[1]]
+            m.unknown = False
+            m.layout = op[2]
+            m.data = bytes((sum(l for _, l in op[2]) + 7) // 8)
+            if res is not None:
+                return ("link_remap_failed", f"{where}: {res!r}")
+        elif t == "start0":
+            m = maps[op[1]]
+            known = bool(m.period)
+            m.task = known
+            if known != (res is None):
+                return ("link_start_without_period", f"{where}: period {m.period!r}, start() gave {res!r}")
         elif t == "st":
             m = maps[op[1]]
+            if m.unknown:
+                continue
             exp = [m.received, m.ts, m.period, m.data]
             if res != exp:
                 what = "timestamp" if res[:1] == exp[:1] and res[3] == exp[3] else "state"
                 return (f"link_map_{what}_wrong", f"{where}: map state {res!r}, expected {exp!r}")
         elif t == "wait":
             m = maps[op[1]]
-            exp = None
+            hits = []
             for cid, d, ts_, delay in op[2]:
                 hit = any(sc == cid and k == op[1] for sc, k in subs) and m.cob == cid and not m.task
                 arrive(cid, bytes(d), ts_)
-                if hit and exp is None:
-                    exp = ts_
-            m.received = exp is not None       # wait_for_reception clears the flag before waiting
-            if res != exp:
-                return ("link_wait_wrong", f"{where}: wait returned {res!r}, expected {exp!r}")
+                if hit:
+                    hits.append(ts_)
+            m.received = bool(hits)            # wait_for_reception clears the flag before waiting
+            # the reader is woken by the first frame for its map; when it only gets to run after a later frame for
+            # the same map has arrived too (scheduling), it reports that later timestamp - both are the map's frames
+            if (res not in hits) if hits else (res is not None):
+                return ("link_wait_wrong", f"{where}: wait returned {res!r}, frames for this map carried {hits!r}")
     if sent != exp_sent:
         return ("link_sent_frames_wrong", f"sent {sent!r}, expected {exp_sent!r}")
     if cblog != exp_cb:
@@ -272,6 +334,8 @@ def coq_case(c):
         elif t == "cb": ops.append(f"LAddCb {gnat(op[1])} {gz(op[2])}")
         elif t == "task": ops.append(f"LTask {gnat(op[1])} {gbool(op[2])}")
         elif t == "st": ops.append(f"LState {gnat(op[1])}")
+        elif t == "remap": ops.append(f"LRemap {gnat(op[1])} {lay(op[2])}")
+        elif t == "start0": ops.append(f"LStartNoPeriod {gnat(op[1])}")
         else: raise ValueError(t)
     return f"LinkCase {ms} {glist(ops)}"
 
@@ -332,6 +396,12 @@ def gen_cases(rng, tier):
                     if maps[kk]["layout"] is lay or maps[kk]["layout"] == lay:
                         ops.append(["r", kk, var])
                 ops.append(["st", rng.randrange(NPROD, 2 * NPROD)])
+                if rng.random() < 0.4:
+                    # the consumer side writes one of its own variables after the reception and reads it back
+                    kk = NPROD + k
+                    v2 = rng.randrange(len(lay))
+                    for kind, v in field_values(rng, lay[v2][0], lay[v2][1], 1):
+                        ops += [[kind, kk, v2, v], ["r", kk, v2], ["r", kk, var]]
             elif r < 0.55:
                 ts += rng.randrange(1, 50)
                 ln = rng.choice([len(maps[NPROD]["layout"]), 8, 0, 3])
@@ -343,8 +413,13 @@ def gen_cases(rng, tier):
                 kk = rng.randrange(NPROD, 2 * NPROD)
                 ops.append(["cob", kk, rng.choice(cobs), rng.random() < 0.8, rng.random() < 0.5])
                 if rng.random() < 0.7: ops.append(["sub", kk])
-            elif r < 0.82:
+            elif r < 0.80:
                 ops.append(["task", rng.randrange(NPROD, 2 * NPROD), rng.random() < 0.6])
+            elif r < 0.84:
+                # start() without a period: refused unless a period is known; reception must go on afterwards
+                kk = rng.randrange(NPROD, 2 * NPROD)
+                ops += [["start0", kk], ["st", kk]]
+                if rng.random() < 0.7: ops.append(["task", kk, False])
             elif r < 0.9:
                 kk = rng.randrange(NPROD, 2 * NPROD)
                 ops.append(["cb", kk, 100 + rng.randrange(50)])
@@ -354,7 +429,38 @@ def gen_cases(rng, tier):
         for kk in range(2 * NPROD):
             ops.append(["st", kk])
             ops.append(["r", kk, rng.randrange(len(maps[kk]["layout"]))])
-        cases.append(dict(kind="link", maps=maps, ops=ops))
+        vias = [rng.choice(["map", "name", "index", "mapname"]) for _ in range(rng.randrange(1, 4))]
+        cases.append(dict(kind="link", maps=maps, ops=ops, vias=vias))
+    # re-mapping while the application keeps using the PDO collection: both sides change the layout, then exchange again
+    for _ in range({"quick": 40, "thorough": 400, "search": 150}[tier]):
+        j = rng.randrange(NPROD)
+        lay1 = rand_layout(rng)
+        r_ = rng.random()
+        if r_ < 0.4 and len(lay1) > 1:
+            sh = rng.randrange(1, len(lay1)); lay2 = lay1[sh:] + lay1[:sh]      # the same objects at new offsets
+        elif r_ < 0.6:
+            lay2 = [[U8, rng.randrange(1, 8)]] + lay1 if sum(l for _, l in lay1) <= 56 else lay1[::-1]
+        else:
+            lay2 = rand_layout(rng)
+        cob = rng.choice(cobs[:4])
+        maps = [dict(cob=cobs[k % 4] if k % NPROD != j else cob, en=True, rtr=True, layout=(lay1 if k % NPROD == j else [[U8, 8]]))
+                for k in range(2 * NPROD)]
+        ops = [["sub", NPROD + j]]
+        ts = 500
+        def exchange(lay):
+            nonlocal ts
+            out = []
+            for var in range(len(lay)):
+                for kind, v in field_values(rng, lay[var][0], lay[var][1], 1):
+                    out.append([kind, j, var, v])
+            ts += 7
+            out.append(["tx", j, ts])
+            out += [["r", NPROD + j, var] for var in range(len(lay))] + [["st", NPROD + j]]
+            return out
+        ops += exchange(lay1) + [["remap", j, lay2], ["remap", NPROD + j, lay2]] + exchange(lay2)
+        if rng.random() < 0.5:
+            ops += [["remap", j, lay1], ["remap", NPROD + j, lay1]] + exchange(lay1)
+        cases.append(dict(kind="link", maps=maps, ops=ops, vias=[rng.choice(["name", "index"])]))
     # runtime part: a waiting reader is woken by reception on ITS map from a second thread (oracle only)
     for i in range({"quick": 8, "thorough": 40, "search": 4}[tier]):
         lay = [[U8, 8], [U16, 16]]
